@@ -681,10 +681,20 @@ fn take_leading_side_effect(ended_block: Option<usize>, list_item: bool, id: usi
     }
 
     let block = ended_block?;
-    let parent = match nodes.get(block) {
-        Some(node) if node.definition == Definition::SideEffect && node.left.is_none() => node.parent,
-        _ => return None,
-    };
+
+    // the block, or the run of blocks it ends (`[1][2]--3`), has no operand on its left
+    let mut first = block;
+    loop {
+        match nodes.get(first) {
+            Some(node) if node.definition == Definition::SideEffect => match node.left {
+                None => break,
+                Some(left) => first = left,
+            },
+            _ => return None,
+        }
+    }
+
+    let parent = nodes.get(block)?.parent;
 
     if let Some(p) = parent {
         match nodes.get_mut(p) {
@@ -854,6 +864,8 @@ pub fn parse(lex_tokens: &Vec<LexerToken>) -> Result<ParseResult, CompilerError>
     let mut group_stack: Vec<(usize, bool)> = vec![];
     let mut current_group = None;
     let mut previous_second_def = SecondaryDefinition::None;
+    // a side-effect block that ended before the whitespace or annotations preceding the current token
+    let mut block_before_trivia: Option<usize> = None;
 
     let trimmed = trim_tokens(&lex_tokens);
 
@@ -884,7 +896,8 @@ pub fn parse(lex_tokens: &Vec<LexerToken>) -> Result<ParseResult, CompilerError>
         // change last left to the side effect's parent
         // current group is gotten above as under_group
         // the side-effect block that ended just before this token, if any
-        let mut ended_block = None;
+        // (whitespace and annotations between the block and this token do not count)
+        let mut ended_block = block_before_trivia.take();
 
         match last_left {
             None => (),
@@ -936,6 +949,10 @@ pub fn parse(lex_tokens: &Vec<LexerToken>) -> Result<ParseResult, CompilerError>
         // whitespace and annotations are transparent for composition: the check is between the significant
         // tokens on either side of them (a list is allowed where whitespace set check_for_list)
         let is_trivia = secondary_definition == SecondaryDefinition::Whitespace || secondary_definition == SecondaryDefinition::Annotation;
+
+        if is_trivia {
+            block_before_trivia = ended_block;
+        }
 
         if !is_trivia {
             check_composition(previous_second_def, secondary_definition, check_for_list, token)?;
@@ -1267,8 +1284,9 @@ pub fn parse(lex_tokens: &Vec<LexerToken>) -> Result<ParseResult, CompilerError>
                             None => implementation_error_with_token(format!("Index assigned to node has no value in node list. {:?}", left), token)?,
                             Some(left_node) => {
                                 // check last left for optional
-                                // unset its right if so
-                                if left_node.definition.is_optional() {
+                                // unset its right if it never materialised, a side-effect block
+                                // standing in for the operand (`1, [2]` before a separator) stays
+                                if left_node.definition.is_optional() && left_node.right == Some(current_id) {
                                     left_node.right = None;
                                 }
 
